@@ -421,6 +421,31 @@ func (w *Worker) runFrame(f *Frame) {
 	for {
 		var next *ssa.BasicBlock
 		blk := f.block
+		if !skipPhis && f.prev != nil {
+			// parallel assignment of all phi nodes (a phi may read another phi of the same block)
+			pi := -1
+			for i, pred := range blk.Preds {
+				if pred == f.prev {
+					pi = i
+					break
+				}
+			}
+			if pi >= 0 {
+				var phis []*ssa.Phi
+				var vals []Value
+				for _, in := range blk.Instrs {
+					phi, ok := in.(*ssa.Phi)
+					if !ok {
+						break
+					}
+					phis = append(phis, phi)
+					vals = append(vals, w.get(f, phi.Edges[pi]))
+				}
+				for i, phi := range phis {
+					w.set(f, phi, vals[i])
+				}
+			}
+		}
 	instrs:
 		for _, in := range blk.Instrs {
 			f.cur = in
@@ -437,15 +462,7 @@ func (w *Worker) runFrame(f *Frame) {
 			}
 			switch in := in.(type) {
 			case *ssa.Phi:
-				if skipPhis {
-					continue
-				}
-				for i, pred := range blk.Preds {
-					if pred == f.prev {
-						w.set(f, in, w.get(f, in.Edges[i]))
-						break
-					}
-				}
+				continue // phis are assigned simultaneously on block entry (below)
 			case *ssa.Jump:
 				next = blk.Succs[0]
 				break instrs
@@ -513,6 +530,9 @@ func (w *Worker) runFrame(f *Frame) {
 				w.unsupported("go statement")
 			case *ssa.Store:
 				p := w.get(f, in.Addr).(Ptr)
+				if w.lateAddr(f, in) {
+					p = w.recomputeAddr(f, in.Addr).(Ptr)
+				}
 				w.store(p, w.get(f, in.Val))
 			case *ssa.DebugRef:
 			case *ssa.MapUpdate:
@@ -1058,4 +1078,87 @@ func init() {
 	if d := os.Getenv("VCHECK_TRACE_DEPTH"); d != "" {
 		fmt.Sscanf(d, "%d", &termPrintDepth)
 	}
+}
+
+
+// lateAddr: the gc compiler evaluates the address operands of an assignment
+// whose right-hand side is a function call AFTER the call (go/ssa, following
+// the letter of the spec, loads them before).  The order of a variable read
+// relative to a call is unspecified by the language; the library relies on
+// gc's order (processAKE: c.ake.state, ... = c.ake.state.receive...(c, msg)
+// where the callee replaces c.ake).  To execute what the real binary
+// executes, the address chain of such a store is re-evaluated at store time.
+func (w *Worker) lateAddr(f *Frame, st *ssa.Store) bool {
+	w.eng.lateM.Lock()
+	defer w.eng.lateM.Unlock()
+	if v, ok := w.eng.lateCache[st]; ok {
+		return v
+	}
+	res := false
+	defer func() { w.eng.lateCache[st] = res }()
+	// the stored value must come from a call in this block
+	var call ssa.Instruction
+	switch v := st.Val.(type) {
+	case *ssa.Call:
+		call = v
+	case *ssa.Extract:
+		if c, ok := v.Tuple.(*ssa.Call); ok {
+			call = c
+		}
+	}
+	if call == nil || call.Block() != st.Block() {
+		return false
+	}
+	// the address chain must contain a load executed before that call in this block
+	pos := map[ssa.Instruction]int{}
+	for i, in := range st.Block().Instrs {
+		pos[in] = i
+	}
+	var hasEarlyLoad func(v ssa.Value) bool
+	hasEarlyLoad = func(v ssa.Value) bool {
+		switch x := v.(type) {
+		case *ssa.FieldAddr:
+			return hasEarlyLoad(x.X)
+		case *ssa.IndexAddr:
+			return hasEarlyLoad(x.X)
+		case *ssa.UnOp:
+			if x.Op == token.MUL && x.Block() == st.Block() && pos[x] < pos[call] {
+				return true
+			}
+		}
+		return false
+	}
+	res = hasEarlyLoad(st.Addr)
+	return res
+}
+
+func (w *Worker) recomputeAddr(f *Frame, v ssa.Value) Value {
+	switch x := v.(type) {
+	case *ssa.FieldAddr:
+		p := w.recomputeAddr(f, x.X).(Ptr)
+		if p == nil {
+			w.targetPanic("nil", "nil pointer dereference (field address)")
+		}
+		return Ptr(&(*p).(Struct)[x.Field])
+	case *ssa.IndexAddr:
+		base := w.recomputeAddr(f, x.X)
+		idx := w.get(f, x.Index).(*Term)
+		var elems []Value
+		switch xv := base.(type) {
+		case Slice:
+			elems = xv
+		case Ptr:
+			if xv == nil {
+				w.targetPanic("nil", "nil pointer dereference (index of *array)")
+			}
+			elems = (*xv).(Array)
+		}
+		i := w.index(idx, x.Index.Type(), len(elems))
+		return Ptr(&elems[i])
+	case *ssa.UnOp:
+		if x.Op == token.MUL && x.Block() == f.block {
+			return w.load(w.recomputeAddr(f, x.X).(Ptr))
+		}
+	}
+	return w.get(f, v)
 }
